@@ -10,12 +10,14 @@ no rule looks at statement shapes, local names or source text.
   C04.6 PGPKey.decrypt: truth table over (my key id among the recipients, a subkey id among the recipients): own packet /
         delegation to that subkey / raise; the own packet is selected by type, algorithm and key id
   C04.7 ECDH: the unwrapped value is returned only through PKCS#5 unpadding (update + finalize of one unpadder)
+  C04.8 PGPMessage.__or__: the data slot is filled at most once - a second data packet (literal / encrypted data / text) raises,
+        so a packet spliced in front of (or behind) the encrypted data can never become, or silently replace, the plaintext
 """
 import ast
 import itertools
 import re
 
-from sa.interp import sl, Interp, Scenario, Const, Obj, render, Enum
+from sa.interp import sl, Interp, Scenario, Const, Obj, Sym, render, Enum
 from sa.loader import AnalysisError
 from sa import guards
 from sa.vocab import FUNCTIONS as VOCAB_FUNCS
@@ -34,6 +36,7 @@ def run(rep, prog, tier):
              'session-key packet of this message gave for the caller\'s passphrase; every other path raises', floor=4)
     rep.rule('C04.6', 'PGPKey.decrypt raises unless the message is addressed to it or a subkey; delegates to that subkey; selects its own PKESK', floor=4)
     rep.rule('C04.7', 'ECDH decrypt returns the unwrapped value only through PKCS#5 unpadding (update + finalize)', floor=2)
+    rep.rule('C04.8', 'PGPMessage.__or__ fills the data slot only when it is empty; a further data packet of any kind raises', floor=6)
     rep.assume('SHA-1/MDC detects modification; AES key unwrap raises on a corrupted wrap (cryptographic arguments, trusted)')
 
     seipd(rep, prog)
@@ -42,6 +45,7 @@ def run(rep, prog, tier):
     message_decrypt(rep, prog)
     key_decrypt(rep, prog)
     ecdh(rep, prog)
+    message_compose(rep, prog)
 
 
 # ------------------------------------------------------------------------------------------------ shared helpers
@@ -77,6 +81,21 @@ def _has_guard_atom(outs, side_pred):
                 if eq is not None and (side_pred(eq[0], eq[1]) or side_pred(eq[1], eq[0])):
                     return True
     return False
+
+
+def _no_unchecked_store(rep, rid, construct, outs, pt, what, where, scenario=None):
+    """A check that comes after the protected value was stored on the object protects nothing: on a path that ends in the
+    raise, no attribute store may carry the (not yet accepted) decrypted value."""
+    bad = []
+    for s in outs:
+        if s.raised is None:
+            continue
+        for st in s.stores:
+            if pt in st[1] and st[0] not in bad:
+                bad.append(st[0])
+    rep.check(not bad, rid, construct, 'decrypted value stored before %s' % what,
+              'the decrypted value is kept on the object (%s) on a path where %s fails: the check must come before the value is stored'
+              % (', '.join(bad), what), where=where, expected='no store of the unchecked value', found=bad or None, scenario=scenario)
 
 
 _SUM16 = (re.compile(r'^\(sum\((.*)\) % 65536\)$'), re.compile(r'^\(sum\((.*)\) & 65535\)$'))
@@ -133,6 +152,7 @@ def seipd(rep, prog):
         return P(a) == sl('PT', ('', BS), (-2, '')) and P(b) == sl('PT', (BS, ''), ('', 2))
     guards.check_guard(rep, 'C04.2', 'IntegrityProtectedSKEDataV1.decrypt', outs, iv_sides,
                        'the prefix repetition check (octets bs-2..bs == octets bs..bs+2)', fi.where)
+    _no_unchecked_store(rep, 'C04.1', 'IntegrityProtectedSKEDataV1.decrypt', outs, PT, 'the MDC / prefix check', fi.where)
     # the value returned is the checked plaintext
     for s in outs:
         if s.raised is None:
@@ -167,6 +187,7 @@ def pkesk(rep, prog):
         guards.check_guard(rep, 'C04.3', 'PKESessionKeyV3.decrypt_sk', outs, sides,
                            'the session-key checksum (sum of key octets mod 65536 == the two octets after the key)', fi.where,
                            scenario=alg)
+        _no_unchecked_store(rep, 'C04.3', 'PKESessionKeyV3.decrypt_sk', outs, M, 'the session-key checksum', fi.where, scenario=alg)
         for s in outs:
             if s.raised is None:
                 r = render(s.ret).replace(M, 'M')
@@ -202,6 +223,11 @@ def keyblob(rep, prog):
                 return _inner(_BE16, a2) == 'SLICE(PT;-2;)' and _inner(_SUM16, b2) == 'SLICE(PT;;-2)'
             desc = 'the 16-bit checksum of the decrypted secret material (last 2 octets == sum of the rest mod 65536)'
         guards.check_guard(rep, 'C04.4', 'PrivKey.decrypt_keyblob', outs, sides, desc, fi.where, scenario='usage %d' % usage)
+        _no_unchecked_store(rep, 'C04.4', 'PrivKey.decrypt_keyblob', outs, PT, 'the %s check' % what, fi.where, scenario='usage %d' % usage)
+        # the usage octet selects the check: it is read, never rewritten, here (the scenario pins it, so a store would go unseen)
+        sel = [st for s in outs for st in s.stores if st[0] in ('self.s2k.usage', 'self.s2k')]
+        rep.check(not sel, 'C04.4', 'PrivKey.decrypt_keyblob', 'usage octet rewritten', 'the usage octet that selects the integrity check is '
+                  'overwritten inside decrypt_keyblob', where=fi.where, found=sel[0][:2] if sel else None, scenario='usage %d' % usage)
         for s in outs:
             if s.raised is None:
                 r = render(s.ret).replace(PT, 'PT')
@@ -610,3 +636,43 @@ def ecdh(rep, prog):
                   'return %s' % r2, 'the unwrapped value must be returned only through PKCS#5 unpadding (update + finalize)',
                   where=fi.where, expected='unpadder.update(unwrapped) + unpadder.finalize() with unpadder = PKCS7(64).unpadder()',
                   found=r2, scenario=scen)
+
+
+# ------------------------------------------------------------------------------------------------ C04.8
+def message_compose(rep, prog):
+    fi = prog.method('pgpy.pgp', 'PGPMessage', '__or__')
+    rep.saw(fn=fi)
+    W = 'PGPMessage.__or__'
+    other = fi.params[1]
+    kinds = []
+    for base in ('LiteralData', 'SKEData', 'IntegrityProtectedSKEData'):
+        fam = _subclasses(prog, base)
+        for n in sorted(fam):
+            ci = prog.classes_by_name[n][0]
+            is_base = any(n in [c.name for c in prog.classes_by_name[m][0].mro()[1:]] for m in fam)
+            if not is_base and n not in [k[0] for k in kinds]:
+                kinds.append((n, Sym(other, cls=ci, types={n}, nonnull=True)))      # the concrete (leaf) packet classes
+    kinds.append(('bytes', Sym(other, types={'bytes'}, nonnull=True)))
+    if len(kinds) < 4:
+        raise AnalysisError('PGPMessage.__or__: data packet classes not found (%s)' % [k[0] for k in kinds])
+    for name, val in kinds:
+        # slot already filled: every path raises (no warn-and-drop, no replace)
+        sc = Scenario(bind={'self._message': Sym('self._message', nonnull=True)}, args={other: val}, inline=noinline)
+        outs = Interp(prog, sc).run(fi)
+        rep.analysed['paths'] += len(outs)
+        bad = [s for s in outs if s.raised is None]
+        what = 'drops it' if bad and not any(st[0] == 'self._message' for st in bad[0].stores) else 'replaces the data packet'
+        rep.check(not bad and bool(outs), 'C04.8', W, 'second data packet (%s)' % name,
+                  'a message that already has its data packet must reject a further one: a packet spliced next to the encrypted data '
+                  'would otherwise become, or silently be dropped in favour of, a plaintext that was never decrypted', where=fi.where,
+                  expected='raise', found='a path %s and returns %s' % (what, render(bad[0].ret) if bad and bad[0].ret is not None else None)
+                  if bad else None, scenario='%s, slot filled' % name)
+        # empty slot: the packet becomes the data packet
+        sc = Scenario(bind={'self._message': Const(None)}, args={other: val}, inline=noinline)
+        outs = Interp(prog, sc).run(fi)
+        rep.analysed['paths'] += len(outs)
+        want = other if name != 'bytes' else None
+        good = [s for s in outs if s.raised is None and render(s.ret) == 'self' and
+                any(st[0] == 'self._message' and (want is None or st[1] == want) for st in s.stores)]
+        rep.check(bool(good) and len(good) == len([s for s in outs if s.raised is None]), 'C04.8', W, 'first data packet (%s)' % name,
+                  'the first data packet fills the slot', where=fi.where, scenario='%s, slot empty' % name)
